@@ -61,6 +61,7 @@ func (r *run) monitor(events []string, st *scheduler.VerifState, dump string) {
 		}
 	}
 	newRet := map[string]int64{}
+	r.segReadAt = map[string]int64{}
 	defer func() {
 		// state as of the end of this segment, used by the checks of the next one
 		for wk, t := range newRet {
@@ -175,6 +176,7 @@ func (r *run) monitor(events []string, st *scheduler.VerifState, dump string) {
 			}
 			if t, ok := r.w.clk.takeReadAt(kv["w"]); ok {
 				newRet[kv["w"]] = t // the scheduler saw the time this call had read before it was suspended
+				r.segReadAt[kv["w"]] = t
 			}
 			if len(f) > 2 && f[2] == "exec" {
 				wk := kv["w"]
